@@ -127,6 +127,20 @@ def main(ck, tier, w):
             ck.violation('run into a folder holding tmp files of an earlier failed run (%s): %s' % (cb, '; '.join(probs)),
                          {'callback': cb, 'observed': r.brief(), 'tags': []})
 
+    # the reader of standard output goes away (`rusty-blockparser ... | head`): whatever the exit status then is, 0 still means
+    # complete final-named output and anything else means none
+    for cb in FILECB:
+        for vb in (0, 2):
+            dd = w.sub('cl')
+            shutil.copytree(d.path, dd)
+            r = run.run_parser(dd, cb, dump=w.mk('out'), verbose=vb, stdout_gone=True)
+            ck.evals()
+            ck.distinct(('epipe', cb, vb))
+            probs = judge(cb, r, good[cb], final_names(cb, 0, n - 1))
+            if probs:
+                ck.violation('%s with the reader of standard output gone (verbosity %d): %s' % (cb, vb, '; '.join(probs)),
+                             {'callback': cb, 'observed': r.brief(), 'tags': []})
+
     ck.cov['rule'] = ('faults enumerated on the real binary: (height x kind) input faults, RLIMIT_FSIZE sweep, abort at every '
                       'event boundary, SIGKILL at random delays; each post-mortem state judged by the invariants checked in '
                       'MC_Fault; non-trivial = distinct (callback, fault kind, fault point)')
